@@ -479,7 +479,10 @@ PROPS['C16'] = dict(
 # =========================================================================== C04 msa-level operations
 def _merge_shapes(tier):
     s = [(1, 2), (2, 1), (1, 1), (2, 3)] if tier == 'quick' else [(a, b) for a in range(1, 4) for b in range(1, 4)]
-    return [dict(name='nd%d_ns%d' % (a, b), defs=dict(KV_ND=a, KV_NSRC=b)) for a, b in s]
+    out = [dict(name='nd%d_ns%d' % (a, b), defs=dict(KV_ND=a, KV_NSRC=b)) for a, b in s]
+    # dest (and src) exactly full, as the readers leave them for 512*k records
+    out += [dict(name='nd%d_ns%d_full' % (a, b), defs=dict(KV_ND=a, KV_NSRC=b, KV_FULL=1)) for a, b in ([(2, 1), (2, 2)] if tier == 'quick' else [(2, 1), (2, 2), (4, 1), (2, 3)])]
+    return out
 MSAOPS_SRCS = ['lib/src/msa_alloc.c', 'lib/src/msa_op.c', 'lib/src/alphabet.c']
 Q(id='C04.merge_msa', props=['C04', 'C05', 'C16'], cls='B', harness='c04_msa_ops.c', entry='h_c04_merge', shapes=_merge_shapes,
   mode='wrap', unwind=14, timeout=900, leak_check=True, object_bits=10, loops_files=['msa_alloc.shrink.loops'], shrink=True, defs=['-DKV_CAP=2', '-DKV_SEQCAP=2'],
@@ -561,6 +564,8 @@ def _reader_shapes(tier):
     for n, w, blk, fmt in shapes:
         out.append(dict(name='n%d_w%d_block%d_fmt%d' % (n, w, blk, fmt), defs=dict(KV_N=n, KV_W=w, KV_BLOCK=blk, KV_FMT=fmt),
                         unwind=(18 if fmt == 1 else 12 + n + ((w + blk - 1) // blk) * (n + 2))))
+    # blocks separated by a line of blanks instead of an empty line
+    out.append(dict(name='n2_w3_block2_fmt1_wssep', defs=dict(KV_N=2, KV_W=3, KV_BLOCK=2, KV_FMT=1, KV_WSSEP=1), unwind=18))
     return out
 Q(id='C06.readers', props=['C06', 'C04', 'C05'], cls='B', harness='c06_readers.c', entry='h_c06_readers', shapes=_reader_shapes,
   mode='wrap', timeout=1200, loops_files=['msa_alloc.shrink.loops', 'msa_io.shrink.loops'], shrink=True, leak_check=True,
@@ -573,10 +578,11 @@ Q(id='C06.readers', props=['C06', 'C04', 'C05'], cls='B', harness='c06_readers.c
 def _msf_reader_shapes(tier):
     out = []
     shapes = [(2, 2, 2, 0), (2, 3, 3, 0), (2, 2, 2, 1), (2, 2, 2, 2)] if tier == 'quick' else [(2, 2, 2, 0), (2, 3, 2, 0), (2, 3, 3, 0), (2, 2, 2, 1), (2, 2, 2, 2), (2, 3, 3, 2)]
+    shapes = shapes + [(2, 3, 2, 3)]          # 3: well-formed, blocks separated by a line of blanks
     for n, w, blk, hostile in shapes:
         nlines = 12 + n + ((w + blk - 1) // blk) * (n + 2 + (3 if hostile == 1 else 0))
-        out.append(dict(name='n%d_w%d_block%d_fmt2%s' % (n, w, blk, {0: '', 1: '_extrarows', 2: '_lenfirst'}[hostile]),
-                        defs=dict(KV_N=n, KV_W=w, KV_BLOCK=blk, KV_FMT=2, KV_NAMELEN=1, KV_HOSTILE=hostile, KV_CAP=4), unwind=max(18, nlines)))
+        out.append(dict(name='n%d_w%d_block%d_fmt2%s' % (n, w, blk, {0: '', 1: '_extrarows', 2: '_lenfirst', 3: '_wssep'}[hostile]),
+                        defs=dict(dict(KV_N=n, KV_W=w, KV_BLOCK=blk, KV_FMT=2, KV_NAMELEN=1, KV_HOSTILE=(0 if hostile == 3 else hostile), KV_CAP=4), **({'KV_WSSEP': 1} if hostile == 3 else {})), unwind=max(18, nlines)))
     return out
 Q(id='C06.read_msf', props=['C06', 'C04', 'C05'], cls='B', harness='c06_readers.c', entry='h_c06_readers', shapes=_msf_reader_shapes,
   mode='wrap', timeout=1500, loops_files=['msa_alloc.shrink.loops', 'msa_io.shrink.loops', 'msa_io.msf.loops'], shrink=True, leak_check=True,
@@ -587,23 +593,37 @@ Q(id='C06.read_msf', props=['C06', 'C04', 'C05'], cls='B', harness='c06_readers.
            'R3 identity substitution in read_msf: the skip strnlen(stored name) is asserted equal to the name length of the shape and replaced by that constant (contracts/msa_io.msf.loops)'],
   assumptions=[A_NOFAIL, A_WRAP, 'bounded: 2 rows, 2-3 columns in blocks of 2-3, row bytes from {-,A,c,N}; one-letter names; header lines shortened to the keywords the reader looks for'])
 def _sniff_shapes(tier):
-    return [dict(name='fasta_k9', defs=dict(KV_TEXT=0, KV_K=9)), dict(name='clustal', defs=dict(KV_TEXT=1)), dict(name='msf', defs=dict(KV_TEXT=2))] + \
-           ([] if tier == 'quick' else [dict(name='fasta_k27', defs=dict(KV_TEXT=0, KV_K=27))])
+    # names / residue lines of 7-9 symbols: long enough to spell a keyword of another format
+    return [dict(name='fasta_k9_r9', defs=dict(KV_TEXT=0, KV_K=9, KV_RW=9)), dict(name='clustal_n7', defs=dict(KV_TEXT=1, KV_NW=7)), dict(name='msf_n7', defs=dict(KV_TEXT=2, KV_NW=7))] + \
+           ([] if tier == 'quick' else [dict(name='fasta_k27', defs=dict(KV_TEXT=0, KV_K=27)), dict(name='msf_n9', defs=dict(KV_TEXT=2, KV_NW=9)), dict(name='clustal_n2', defs=dict(KV_TEXT=1, KV_NW=2))])
 Q(id='C04.detect_alignment_format', props=['C04', 'C05', 'C06'], cls='B', harness='c04_sniff.c', entry='h_c04_sniff', shapes=_sniff_shapes,
-  mode='wrap', unwind=52, timeout=900, funcs=['detect_alignment_format'],
+  mode='wrap', unwind=67, timeout=900, funcs=['detect_alignment_format'],
   srcs=['lib/src/msa_alloc.c', 'lib/src/msa_op.c', 'lib/src/msa_misc.c', 'lib/src/alphabet.c', 'lib/src/tlmisc.c'], native_srcs=READER_NATIVE,
   trusted=[TRUST_MSG, 'strstr: textbook loop stub (contracts/stubs_str.h)'],
-  assumptions=[A_WRAP, 'bounded: two FASTA records whose headers carry 9 (thorough 27) arbitrary bytes after the > ; the header lines of kalign\'s own Clustal / MSF writers followed by two block lines with symbolic two-letter names and residues'])
+  assumptions=[A_WRAP, 'bounded: two FASTA records whose headers carry 9 (thorough 27) arbitrary bytes after the > ; the header lines of kalign\'s own Clustal / MSF writers followed by two block lines with symbolic names of 7 (thorough 2-9) characters and residues; FASTA residue lines of 9 letters'])
 def _read_file_shapes(tier):
     sh = [(3, 3), (5, 1)] if tier == 'quick' else [(3, 3), (5, 1), (7, 1), (2, 5)]
-    return [dict(name='nl%d_lw%d' % (nl, lw), defs=dict(KV_NL=nl, KV_LW=lw), unwind=max(nl, lw) + 4) for nl, lw in sh]
+    out = [dict(name='nl%d_lw%d' % (nl, lw), defs=dict(KV_NL=nl, KV_LW=lw), unwind=max(nl, lw) + 4) for nl, lw in sh]
+    out.append(dict(name='nl2_lw3_noeol', defs=dict(KV_NL=2, KV_LW=3, KV_NOEOL=1), unwind=7))     # file that does not end in a newline
+    return out
 Q(id='C05.read_file_stdin', props=['C05', 'C04'], cls='B', harness='c05_read_file.c', entry='h_c05_read_file', shapes=_read_file_shapes,
   mode='wrap', timeout=900, loops_files=['msa_io.inbuf.shrink.loops'], shrink=True, leak_check=True, defs=['-DKV_INCAP=2'], object_bits=10,
   funcs=['read_file_stdin', 'alloc_in_buffer', 'resize_in_buffer', 'free_in_buffer'],
   srcs=['lib/src/msa_alloc.c', 'lib/src/msa_op.c', 'lib/src/msa_misc.c', 'lib/src/alphabet.c', 'lib/src/tlmisc.c'], native_srcs=READER_NATIVE,
   trusted=[TRUST_MSG, 'fopen / getline / fclose: harness stubs delivering the lines of an in-memory text (each line ends in a newline)', 'realloc byte-copy stub', 'iscntrl: CBMC C-locale model',
            'R3 capacity shrink: line table 1024 -> 2 entries (grows 2 -> 3 -> 4 -> 6)'],
-  assumptions=[A_NOFAIL, A_WRAP, 'bounded: 2-7 lines of 1-5 bytes, every byte symbolic over the full range; every line ends in a newline (a last line without one is not exercised)'])
+  assumptions=[A_NOFAIL, A_WRAP, 'bounded: 2-7 lines of 1-5 bytes, every byte symbolic over the full range; files that end in a newline and one that does not'])
+def _longname_shapes(tier):
+    # names of NAMECAP-1, NAMECAP and NAMECAP+2 characters against a name buffer of NAMECAP = 4 bytes
+    return [dict(name='clu_name%d_cap4' % n, defs=dict(KV_N=2, KV_W=2, KV_BLOCK=2, KV_FMT=1, KV_LONGNAME=n, KV_NAMECAP=4), unwind=18) for n in ((4, 6) if tier == 'quick' else (3, 4, 5, 6))]
+Q(id='C05.read_clu.longnames', props=['C05'], cls='B', harness='c06_readers.c', entry='h_c06_readers', shapes=_longname_shapes,
+  mode='wrap', timeout=1200, loops_files=['msa_alloc.shrink.loops', 'msa_io.shrink.loops', 'msa_struct.namecap.loops'], shrink=True, leak_check=True,
+  defs=['-DKV_CAP=4', '-DKV_SEQCAP=2'], object_bits=11, unwindset={'strnlen.0': 258},
+  funcs=['read_clu', 'null_terminate_sequences', 'resize_msa_seq', 'alloc_msa', 'kalign_free_msa'],
+  srcs=['lib/src/msa_alloc.c', 'lib/src/msa_op.c', 'lib/src/msa_misc.c', 'lib/src/alphabet.c', 'lib/src/tlmisc.c'], native_srcs=READER_NATIVE,
+  trusted=[TRUST_MSG, 'strstr/strnlen loop stubs', 'realloc byte-copy stub', 'isalpha/ispunct/isspace: CBMC C-locale models',
+           'R3 capacity shrink (records 512 -> 4, residues 512 -> 2, name buffer MSA_NAME_LEN 256 -> 4 bytes)'],
+  assumptions=[A_NOFAIL, A_WRAP, 'bounded: Clustal text with row names of 3-6 characters against a 4-byte name buffer; memory safety and leak obligations only (what such a name becomes is not specified by a property)'])
 # =========================================================================== C12 upgma
 def _upgma_shapes(tier):
     s = [(3, 2), (4, 2), (4, 3)] if tier == 'quick' else [(3, 2), (4, 2), (4, 3), (5, 2), (5, 3), (5, 4)]
@@ -799,3 +819,41 @@ Q(id='C04.kalign_read_input.protocol', props=['C04', 'C05'], cls='P', harness='c
   unwind=4, timeout=600, replayable=False, funcs=['kalign_read_input', 'check_for_sequences'],
   trusted=[TRUST_MSG, 'esl_stopwatch_* / my_file_exists: trivial stubs', 'eleven callees replaced at the call sites by the step contracts of contracts/msa_io.read_input.contracts.h'],
   assumptions=['files of 0..2 lines with symbolic lengths 0..1000 (the "was anything read" test looks at the first line only); format result symbolic; with / without an msa from earlier inputs'])
+
+# =========================================================================== refreshed level texts (state at the end of the build)
+PROPS['C01'].update(
+    level_text=('proved: the kalign_run protocol (every step once, in order, with the caller\'s arguments; C01.kalign_run.protocol), convert_msa_to_internal, sort_by_rank. '
+                'Bounded contract checks of the real merge step (do_align / add_gap_info_to_path_n / mirror_path_n / make_seq / update_gaps) for every small shape with symbolic gap vectors and any DP result, '
+                'of the real kalign_run on small inputs with the tree/DP stages replaced by contract stubs (rows, names, order, row length, de-gapped row == input bytes, only gap characters added), and of the three writers (C15.writers)'),
+    level_note=('bounded parts: group sizes 1-2(3), widths 1-4, 2-4 sequences of 0-3 residues; DP abstracted by assumed contract ALN-1 (monotone alignment without adjacent opposite gaps); float profile routines, qsort, stopwatch and diagnostics are stubs; '
+                'induction over the guide tree is a meta-argument; sum-over-array invariants could not be closed by loop contracts (DESIGN 2.2)'))
+PROPS['C04'].update(
+    level_text=('proved: the kalign_read_input protocol (slurp, "anything read", sniff, the reader of the sniffed format, kind of sequence, alignment status, member lists, merge into the msa of earlier inputs; a file that contributes nothing leaves that msa alone) and the kalign_run protocol (de-align before anything else). '
+                'Bounded contract checks of read_file_stdin (lines, control characters), detect_alignment_format (FASTA whatever the record names say; kalign\'s own Clustal / MSF headers), read_fasta / read_clu / read_msf (records = letters of the sequence lines, gap symbols only counted), '
+                'merge_msa, detect_aligned / dealign_msa, detect_alphabet (non-letters take no part)'),
+    level_note=('bounded reader shapes (2-3 records, a few columns, shortened header lines); the two-presentation relational statement follows by composition (equal reader output => same kalign_run input), not machine-checked; stdin differs from a file only in fopen'))
+PROPS['C05'].update(
+    level_text=('memory-safety and defined-code obligations (bounds, pointer, overflow, shift, division checks of CBMC, memory-leak check where the harness ends with the destructor) are discharged together with the functional contracts: '
+                'proved for create_alphabet, convert_msa_to_internal (any length <= 1000), compare_pair, run_kalign exit-status mapping, calc_distance, the two protocol functions; '
+                'bounded for read_file_stdin (every byte value), detect_alignment_format, the three readers incl. malformed MSF text, merge_msa, the constructors, the merge step and kalign_run incl. its lifecycle with empty sequences'),
+    level_note=('bounded reader / writer shapes; allocation failure paths not explored (malloc assumed to succeed); getopt loop, AVX2 kernel and termination are outside; data invariant "residues are ASCII letters" assumed at read sites of convert_msa_to_internal'))
+PROPS['C07'].update(
+    level_text=('proved: aln_continue (the Hirschberg split of every transition code equals the partition rule of the three-state model; recursive calls replaced by a contract), aln_runner_serial (forward, backward, meetup, split once each, on the block it was given), frames and result ranges of the meetups. '
+                'Bounded component contracts on small rectangles with symbolic residues and the concrete parameter sets: seq-seq forward == independent full-matrix recurrence (bit for bit), backward == forward on reversed operands (all three kernels), '
+                'profile kernels on groups of identical copies == the recurrence scaled by KA*KB, the three meetups == the meet-in-the-middle rule'),
+    level_note='bounded kernels (1-3 rows x 2-4 columns, groups of 2-3 copies); optimality end to end is the composition of these contracts (meta-argument); update_n on non-diagonal paths not covered')
+PROPS['C08'].update(
+    level_note=('bounded: blocks of up to 4 nucleotide / 3 protein rows (thorough 6 / 5), so identical sequences longer than that are NOT decided; protein residues from 7 of the 23 codes (incl. X, B, Z); profile kernels: 2 copies against 1 or 2, blocks of 2 (3) rows, 3 residue codes; '
+                'the k-means fallback, upgma on all-equal distances and the induction over the recursion / guide tree are meta-arguments or undecided'))
+PROPS['C09'].update(
+    level_note=('trusted: no-op diagnostic printers, textbook strstr stub, recording stubs for the library entry points called by run_kalign; malloc assumed to succeed; frame (assigns) not checked because goto-instrument --dfcc does not finish on 23x23 heap tables; '
+                'the getopt loop of main() is not under contract: two static facts pin the three penalty options (stored with atof, each in its own field)'))
+PROPS['C12'].update(
+    level_text=('chain of component checks: bpm_block / bpm equal the edit-distance reference (C11, so identical sequences are at distance 0 and non-contained ones at >= 1); calc_distance returns that value (proved); '
+                'the real d_estimation (pair mode) adds a length term in [0,1] and is symmetric (C12.d_estimation, the premise of the next step, verbatim); '
+                'upgma (exact tree for < 100 sequences) is checked bounded to put the copies of a sequence into a subtree of their own under that premise; identical groups then align without gaps (C08 step) and move as a block (C10)'),
+    level_note='bounded (3-5 leaves; d_estimation on 2 sequences with lengths from 16 representative values); induction over multiplicity and the composition are meta-arguments')
+PROPS['C16'].update(
+    level_text=('static facts: the complete list of objects with static storage in lib/src and src is the expected constant tables, no random numbers are drawn by library code reachable from the API, the OpenMP thread count is set on every call; '
+                'proved: kalign_run creates and releases each per-call object once (protocol); bounded contract checks with CBMC memory-leak detection on every constructor/destructor pair, on the readers, and on the whole kalign_run lifecycle of a reader-shaped msa with empty sequences '
+                '(everything allocated is freed, every field later read is initialised: an uninitialised field is nondeterministic heap content to the verifier and fails the post-condition)'))
